@@ -355,7 +355,8 @@ func (m *Variant) Encode() ([]byte, error) {
 
 // encode recursively writes the values to the buffer.
 func (m *Variant) encode(buf *Buffer, val reflect.Value) {
-	if val.Kind() != reflect.Slice || m.Type() == TypeIDByteString {
+	// a ByteString is a []byte; only a slice of them is an array
+	if val.Kind() != reflect.Slice || (m.Type() == TypeIDByteString && val.Type() == reflect.TypeOf([]byte{})) {
 		m.encodeValue(buf, val.Interface())
 		return
 	}
@@ -462,7 +463,8 @@ func sliceDim(val reflect.Value) (typ reflect.Type, dim []int32, count int32, er
 	}
 
 	// check that inner slices all have the same length
-	if val.Index(0).Kind() == reflect.Slice {
+	// (the elements of a ByteString array are not a dimension)
+	if val.Index(0).Kind() == reflect.Slice && val.Type().Elem() != reflect.TypeOf([]byte{}) {
 		for i := 0; i < val.Len(); i++ {
 			if val.Index(i).Len() != val.Index(0).Len() {
 				return nil, nil, 0, errUnbalancedSlice
